@@ -276,3 +276,302 @@ Example resume_nonvacuous :
                s_disk _ _ _ sf 0%N = ex_new.
 Proof. exact resume_example_lemma. Qed.
 Print Assumptions resume_nonvacuous.
+
+(** * The two cross-property hypotheses discharged inside Coq (Compose/Resume*.v)
+
+    [resume_equiv] above keeps two hypotheses that are other properties' business: [H_wire]
+    (C13) and [writer_ok] for the overlay entry writer (C14).  Below they are proved for
+    instances built from the C13 and C14 models, and [resume_equiv] is restated without them.
+
+    Reader.  C03 counts messages, C13 counts bytes: [bnd k] is the byte offset after the first
+    [k] frames, [idx_of] its inverse; the source checkpoint "handed out during the read of
+    message p" is [src_event p] = the answer of the source behaviour [beh] for the read from
+    [bnd p] to [bnd (S p)]; [emit_w] / [src_resume_w] instantiate C03's [emit] / [src_resume]
+    ([src_resume_w off src] runs C13's [resume] on a brand-new reader over the written bytes
+    and converts the offset it ends at back to an index). *)
+From Wharf Require Import Wire.Frame Wire.FrameProofs Wire.Reader Wire.ReaderProofs Overlay.Writer Overlay.Patch Overlay.Codec
+  Overlay.SessionProofs Compose.ResumeWire Compose.ResumeWireProofs Compose.ResumeWireInst
+  Compose.ResumeOverlay Compose.ResumeOverlayProofs Compose.ResumeInst Compose.ResumeInstExample.
+
+(** The C13 save-state automaton refines C03's message-granularity automaton: started in
+    related states ([rd_rel]: same number of messages read, byte offset = their frames, same
+    save state, same pending request, the held source checkpoint is the one C03's index names),
+    under any schedule of WantSave / PopCheckpoint / ReadMessage that does not read past the
+    last message, the two run in lockstep - the same requests are forwarded, the i-th read
+    yields the i-th message, both pop or neither does and the popped checkpoints correspond
+    through [ckpt_to_wire], and the states stay related.  Environment: the protobuf round trip
+    and bodies below 2^56 bytes. *)
+Theorem wire_reader_refines :
+  forall (M : Type) (marshal : M -> list byte) (unmarshal : list byte -> option M),
+    (forall m, unmarshal (marshal m) = Some m) ->
+  forall msgs : list M, Forall (fits_msg marshal) msgs ->
+  forall (beh : behaviour) (ops : list Reader.op) (a : Reader.reader) (b : Resume.reader),
+    rd_rel marshal msgs beh a b -> reads_within msgs (Resume.r_pos b) ops ->
+    Forall2 (fun x y => ev_rel marshal msgs beh (fst x) (fst y) /\ rd_rel marshal msgs beh (snd x) (snd y))
+            (Reader.run unmarshal beh a ops) (run3 marshal msgs beh b ops).
+Proof. exact @wire_refines. Qed.
+Print Assumptions wire_reader_refines.
+
+(** ... the relation holds between [NewReadContext] over the written bytes and the reader of
+    [start_state], ... *)
+Theorem wire_reader_initial :
+  forall (M : Type) (marshal : M -> list byte) (msgs : list M) (beh : behaviour) (cap0 : N),
+    rd_rel marshal msgs beh (new_reader cap0 (wire_data marshal msgs)) (Resume.mkrd 0 Resume.Idle false 0).
+Proof. exact @rd_rel_init. Qed.
+Print Assumptions wire_reader_initial.
+
+(** ... and it contains the protocol invariant of either development: C13's [coherent] (the
+    source has a pending request exactly while the reader waits) and the [rd_inv] that
+    [saves_happen] / [reader_invariant_kept] ask for. *)
+Theorem wire_reader_invariants :
+  forall (M : Type) (marshal : M -> list byte) (msgs : list M) (beh : behaviour) (a : Reader.reader) (b : Resume.reader),
+    rd_rel marshal msgs beh a b -> coherent a /\ rd_inv b.
+Proof. exact @rd_rel_invariants. Qed.
+Print Assumptions wire_reader_invariants.
+
+(** [H_wire] for the instance, from C13 ([resume_good]: the resumption half of
+    [checkpoint_resumes_exactly]): for every checkpoint the instance can produce - the source
+    handed its part out during the read of an EARLIER message ([src < off], [emit_w src]) and
+    the reader part is a position of the stream ([off <= length msgs]) - and every source
+    within the contract, [ReadContext.Resume] restarts at the reader offset of the checkpoint. *)
+Theorem wire_resume_restarts_at_checkpoint :
+  forall (M : Type) (marshal : M -> list byte) (msgs : list M) (beh : behaviour) (cap0 : N),
+    beh_sound beh ->
+  forall off src : nat,
+    wf_mc marshal msgs beh (Resume.mkmc off src) ->
+    src_resume_w marshal msgs beh cap0 off src = Some off.
+Proof. exact @src_resume_w_ok. Qed.
+Print Assumptions wire_resume_restarts_at_checkpoint.
+
+(** ... and wherever [src_resume_w] says reading restarts, the resumed C13 reader yields
+    exactly the messages [run_resumed] feeds the patcher ([skipn p msgs]), then end of stream,
+    whatever sound source the resumed run has; and it is again related to the reader of
+    [resume_state]. *)
+Theorem wire_resume_yields_unread :
+  forall (M : Type) (marshal : M -> list byte) (unmarshal : list byte -> option M),
+    (forall m, unmarshal (marshal m) = Some m) ->
+  forall msgs : list M, Forall (fits_msg marshal) msgs ->
+  forall (beh : behaviour) (cap0 : N) (off src p : nat),
+    src_resume_w marshal msgs beh cap0 off src = Some p ->
+    exists (c : msg_ckpt) (r' : Reader.reader),
+      ckpt_to_wire marshal msgs beh (Resume.mkmc off src) = Some c /\
+      Reader.resume (new_reader cap0 (wire_data marshal msgs)) (Some c) = Some r' /\
+      rd_rel marshal msgs beh r' (Resume.mkrd p Resume.Idle false 0) /\
+      forall beh2, beh_sound beh2 -> read_all unmarshal beh2 r' = (skipn p msgs, EEOF).
+Proof. exact @src_resume_w_yields. Qed.
+Print Assumptions wire_resume_yields_unread.
+
+(** [H_wire] as stated in [resume_equiv] ranges over ALL pairs [src <= off]; C13 answers only
+    for the pairs above.  That is enough: every checkpoint the patcher hands to its consumer,
+    through any chain of crashes and resumes, is such a pair (an invariant of [run]: the
+    reader pops after the read during which the source answered has returned). *)
+Theorem offered_checkpoints_are_resumable :
+  forall (D RAW WS WCK : Type) (dlen : D -> N) (blocksize : N) (tsize ssize : N -> N) (nfiles : N)
+         (range_data : N -> N -> N -> D) (bs_data : N -> Z -> D -> D -> D)
+         (w_open : N -> option (N * WCK) -> RAW -> option (WS * RAW)) (w_write : N -> WS -> RAW -> D -> WS * RAW)
+         (w_save : N -> WS -> RAW -> N * WCK * WS * RAW) (w_final : N -> WS -> RAW -> RAW) (w_tell : WS -> N)
+         (fresh : bool) (is_overlay : N -> bool) (prepare : N -> RAW -> RAW) (copy_old : N -> RAW)
+         (raw_ok : N -> RAW -> Prop) (covers : N -> N * WCK -> RAW -> RAW -> Prop)
+         (marshal : msg D -> list byte) (beh : behaviour),
+    beh_sound beh ->
+  forall (cap0 : N) (msgs : list (msg D)) (d0 : N -> RAW) (ck : ckpt WCK) (d : N -> RAW),
+    offered D RAW WS WCK dlen blocksize tsize ssize nfiles range_data bs_data w_open w_write w_save w_final w_tell
+            fresh is_overlay prepare copy_old (emit_w marshal msgs beh) (src_resume_w marshal msgs beh cap0)
+            raw_ok covers msgs d0 ck d ->
+    wf_mc marshal msgs beh (ck_msg WCK ck).
+Proof. exact offered_ckpt_wf. Qed.
+Print Assumptions offered_checkpoints_are_resumable.
+
+(** [resume_equiv] with the reader hypothesis discharged: the message reader is the wire
+    reader of C13 over the framed message list, on any source within the contract
+    [beh_sound]; any bowl whose entry writers satisfy [writer_ok]. *)
+Theorem resume_equiv_wire_instance :
+  forall (D RAW WS WCK : Type) (dlen : D -> N) (blocksize : N) (tsize ssize : N -> N) (nfiles : N)
+         (range_data : N -> N -> N -> D) (bs_data : N -> Z -> D -> D -> D)
+         (w_open : N -> option (N * WCK) -> RAW -> option (WS * RAW)) (w_write : N -> WS -> RAW -> D -> WS * RAW)
+         (w_save : N -> WS -> RAW -> N * WCK * WS * RAW) (w_final : N -> WS -> RAW -> RAW) (w_tell : WS -> N)
+         (fresh : bool) (is_overlay : N -> bool) (prepare : N -> RAW -> RAW) (copy_old : N -> RAW)
+         (raw_ok : N -> RAW -> Prop) (covers : N -> N * WCK -> RAW -> RAW -> Prop)
+         (marshal : msg D -> list byte) (beh : behaviour),
+    beh_sound beh ->
+  forall (cap0 : N) (msgs : list (msg D)) (d0 : N -> RAW)
+         (C : Type) (w_result : N -> RAW -> option C) (old_content : N -> C) (capp : C -> D -> C) (cnil : C)
+         (w_abs : N -> WS -> RAW -> C) (winv : N -> WS -> RAW -> Prop) (finished : N -> RAW -> C -> Prop),
+    writer_ok D C RAW WS WCK dlen tsize ssize w_open w_write w_save w_final w_tell w_result fresh prepare copy_old
+              old_content capp cnil w_abs winv raw_ok covers finished ->
+  forall Sf : state RAW WS WCK,
+    Resume.run D RAW WS WCK dlen blocksize tsize ssize nfiles range_data bs_data w_open w_write w_save w_final w_tell
+        fresh is_overlay copy_old (emit_w marshal msgs beh) (fun _ => false) (fun _ => false)
+        (start_state RAW WS WCK fresh prepare d0) msgs = Finished RAW WS WCK Sf ->
+    sized_run D RAW WS WCK dlen blocksize tsize ssize nfiles range_data bs_data w_open w_write w_save w_final
+              w_tell fresh is_overlay copy_old (emit_w marshal msgs beh) (start_state RAW WS WCK fresh prepare d0) msgs ->
+    (forall g : N, raw_ok g (bowl_create RAW fresh prepare d0 g)) ->
+  forall (ck : ckpt WCK) (d d' : N -> RAW) (sched stop : nat -> bool),
+    offered D RAW WS WCK dlen blocksize tsize ssize nfiles range_data bs_data w_open w_write w_save w_final w_tell
+            fresh is_overlay prepare copy_old (emit_w marshal msgs beh) (src_resume_w marshal msgs beh cap0)
+            raw_ok covers msgs d0 ck d ->
+    crash_ok RAW WCK fresh prepare raw_ok covers ck d d' ->
+    match run_resumed D RAW WS WCK dlen blocksize tsize ssize nfiles range_data bs_data w_open w_write w_save
+                      w_final w_tell fresh is_overlay prepare copy_old (emit_w marshal msgs beh)
+                      (src_resume_w marshal msgs beh cap0) sched stop ck d' msgs with
+    | Finished _ _ _ sf => Resume.commit C RAW WS WCK nfiles w_result fresh old_content sf =
+                           Resume.commit C RAW WS WCK nfiles w_result fresh old_content Sf
+    | Stopped _ _ _ _ => exists j : nat, stop j = true
+    | _ => False
+    end.
+Proof. exact resume_equiv_wire_lemma. Qed.
+Print Assumptions resume_equiv_wire_instance.
+
+(** Liveness behind the wire reader: the source assumption of [saves_happen] ([emit] always
+    true) is what C13's seek source does on every read of a message of the stream, so of any
+    two consecutive relay iterations that read messages of the stream one delivers a checkpoint. *)
+Theorem saves_happen_wire_seek :
+  forall (D RAW WS WCK : Type) (dlen : D -> N) (blocksize : N) (tsize ssize : N -> N)
+         (range_data : N -> N -> N -> D) (bs_data : N -> Z -> D -> D -> D)
+         (w_open : N -> option (N * WCK) -> RAW -> option (WS * RAW)) (w_write : N -> WS -> RAW -> D -> WS * RAW)
+         (w_save : N -> WS -> RAW -> N * WCK * WS * RAW) (w_final : N -> WS -> RAW -> RAW) (w_tell : WS -> N)
+         (fresh : bool) (is_overlay : N -> bool) (copy_old : N -> RAW)
+         (marshal : msg D -> list byte) (msgs : list (msg D)) (stop : nat -> bool)
+         (s : state RAW WS WCK) (m : msg D) (s' : state RAW WS WCK) (m' : msg D) (r : result RAW WS WCK),
+    in_loop WS (s_ph RAW WS WCK s) = true ->
+    rd_inv (s_rd RAW WS WCK s) ->
+    S (Resume.r_pos (s_rd RAW WS WCK s)) < length msgs ->
+    Resume.step D RAW WS WCK dlen blocksize tsize ssize range_data bs_data w_open w_write w_save w_final w_tell fresh
+         is_overlay copy_old (emit_w marshal msgs seek_beh) (fun _ => true) stop s m = Running RAW WS WCK s' ->
+    in_loop WS (s_ph RAW WS WCK s') = true ->
+    Resume.step D RAW WS WCK dlen blocksize tsize ssize range_data bs_data w_open w_write w_save w_final w_tell fresh
+         is_overlay copy_old (emit_w marshal msgs seek_beh) (fun _ => true) stop s' m' = r ->
+    match r with
+    | Running _ _ _ s'' | Stopped _ _ _ s'' => length (s_offers RAW WS WCK s) < length (s_offers RAW WS WCK s'')
+    | _ => True
+    end.
+Proof. exact saves_happen_wire_lemma. Qed.
+Print Assumptions saves_happen_wire_seek.
+
+(** Writer.  [ow_open] ... [ow_result] model [overlayEntryWriter] (Resume = seek both files to
+    the saved (ReadOffset, OverlayOffset) + NewOverlayWriter, Write, Save = Flush + the two
+    offsets, Finalize) on top of C14's writer, and Commit = C14's [patch] (Patch + truncate) of
+    the old file with the stage file.  The contract holds with: content so far = everything
+    written through all sessions; invariant [ow_inv] = "in the middle of a C14 session opened
+    in a state satisfying C14's [pre]"; crash model [ow_covers] = the overlay file keeps its
+    first OverlayOffset bytes, ANYTHING may follow; [ow_raw_ok] = any file may sit at the stage
+    path.  [W_final] is C14's [sessions_ok] (general form of [overlay_sessions]), [W_save]
+    its induction step ([session_ok], [session_lands]: what [offsets_exact_after_flush] and
+    [flushed_prefix_applies] state).  Environment: the overlay message codec is a prefix code
+    ([real_codec_is_prefix_code] of C14 for the real one) and [0 < bufSize]. *)
+Theorem overlay_entry_writer_contract :
+  forall (bufSize threshold : N) (enc : Writer.op -> list byte) (dec : list byte -> option (Writer.op * list byte))
+         (magic : list byte),
+    (0 < bufSize)%N ->
+    (forall o rest, dec (enc o ++ rest) = Some (o, rest)) ->
+  forall (old : N -> list byte) (tsize ssize : N -> N) (prepare : N -> list byte -> list byte)
+         (copy_old old_content : N -> list byte),
+    writer_ok (list byte) (list byte) (list byte) ew_state ew_ckpt (fun d => N.of_nat (length d)) tsize ssize
+              (ow_open enc dec magic old) (ow_write bufSize threshold enc) (ow_save bufSize threshold enc)
+              (ow_final bufSize threshold enc) ow_tell (ow_result dec magic old) false prepare copy_old old_content
+              (fun c d => c ++ d) [] ow_abs (ow_inv bufSize threshold enc magic old) ow_raw_ok ow_covers
+              (ow_finished dec magic old).
+Proof. exact overlay_writer_ok. Qed.
+Print Assumptions overlay_entry_writer_contract.
+
+(** [resume_equiv] for in-place application with the writer hypothesis discharged ([ob_*]:
+    the theorem's notions instantiated with the overlay bowl's dispatching writer -
+    [freshEntryWriter] for new paths, the overlay entry writer for paths of the old build);
+    the reader is still abstract. *)
+Theorem resume_equiv_overlay_instance :
+  forall (bufSize threshold : N) (enc : Writer.op -> list byte) (dec : list byte -> option (Writer.op * list byte))
+         (magic : list byte) (blocksize : N) (tsize ssize : N -> N) (nfiles : N) (oldt oldp : N -> list byte)
+         (range_data : N -> N -> N -> list byte) (bs_data : N -> Z -> list byte -> list byte -> list byte)
+         (is_overlay : N -> bool) (emit : nat -> bool) (src_resume : nat -> nat -> option nat),
+    (0 < bufSize)%N ->
+    (forall o rest, dec (enc o ++ rest) = Some (o, rest)) ->
+    (forall t : N, length (oldt t) = N.to_nat (tsize t)) ->
+    (forall off src : nat, src <= off -> src_resume off src = Some off) ->
+  forall (msgs : list (msg (list byte))) (d0 : N -> list byte) (Sf : state (list byte) (N + ew_state) (unit + ew_ckpt)),
+    ob_run bufSize threshold enc dec magic blocksize tsize ssize nfiles oldt oldp range_data bs_data is_overlay emit
+           (fun _ => false) (fun _ => false) (ob_start ssize d0) msgs = Finished _ _ _ Sf ->
+    ob_sized bufSize threshold enc dec magic blocksize tsize ssize nfiles oldt oldp range_data bs_data is_overlay emit
+             (ob_start ssize d0) msgs ->
+    (forall g, ob_raw_ok ssize is_overlay g (d0 g)) ->
+  forall (ck : ckpt (unit + ew_ckpt)) (d d' : N -> list byte) (sched stop : nat -> bool),
+    ob_offered bufSize threshold enc dec magic blocksize tsize ssize nfiles oldt oldp range_data bs_data is_overlay emit
+               src_resume msgs d0 ck d ->
+    ob_crash ssize is_overlay ck d d' ->
+    match ob_resumed bufSize threshold enc dec magic blocksize tsize ssize nfiles oldt oldp range_data bs_data is_overlay
+                     emit src_resume sched stop ck d' msgs with
+    | Finished _ _ _ sf => ob_commit dec magic nfiles oldt oldp is_overlay sf = ob_commit dec magic nfiles oldt oldp is_overlay Sf
+    | Stopped _ _ _ _ => exists j : nat, stop j = true
+    | _ => False
+    end.
+Proof. exact resume_equiv_overlay_lemma. Qed.
+Print Assumptions resume_equiv_overlay_instance.
+
+(** Both at once: in-place application read through the wire reader.  What is left is the
+    environment - the overlay message codec is a prefix code, the source keeps the checkpoint
+    contract [beh_sound], the old files have their declared sizes, [0 < bufSize] - and the
+    patch: the uninterrupted application completes and respects the declared sizes. *)
+Theorem resume_equiv_instantiated :
+  forall (bufSize threshold : N) (enc : Writer.op -> list byte) (dec : list byte -> option (Writer.op * list byte))
+         (magic : list byte) (blocksize : N) (tsize ssize : N -> N) (nfiles : N) (oldt oldp : N -> list byte)
+         (range_data : N -> N -> N -> list byte) (bs_data : N -> Z -> list byte -> list byte -> list byte)
+         (is_overlay : N -> bool) (marshal : msg (list byte) -> list byte) (beh : behaviour) (cap0 : N),
+    (0 < bufSize)%N ->
+    (forall o rest, dec (enc o ++ rest) = Some (o, rest)) ->
+    (forall t : N, length (oldt t) = N.to_nat (tsize t)) ->
+    beh_sound beh ->
+  forall msgs : list (msg (list byte)),
+    let emit := emit_w marshal msgs beh in
+    let src_resume := src_resume_w marshal msgs beh cap0 in
+  forall (d0 : N -> list byte) (Sf : state (list byte) (N + ew_state) (unit + ew_ckpt)),
+    ob_run bufSize threshold enc dec magic blocksize tsize ssize nfiles oldt oldp range_data bs_data is_overlay emit
+           (fun _ => false) (fun _ => false) (ob_start ssize d0) msgs = Finished _ _ _ Sf ->
+    ob_sized bufSize threshold enc dec magic blocksize tsize ssize nfiles oldt oldp range_data bs_data is_overlay emit
+             (ob_start ssize d0) msgs ->
+    (forall g, ob_raw_ok ssize is_overlay g (d0 g)) ->
+  forall (ck : ckpt (unit + ew_ckpt)) (d d' : N -> list byte) (sched stop : nat -> bool),
+    ob_offered bufSize threshold enc dec magic blocksize tsize ssize nfiles oldt oldp range_data bs_data is_overlay emit
+               src_resume msgs d0 ck d ->
+    ob_crash ssize is_overlay ck d d' ->
+    match ob_resumed bufSize threshold enc dec magic blocksize tsize ssize nfiles oldt oldp range_data bs_data is_overlay
+                     emit src_resume sched stop ck d' msgs with
+    | Finished _ _ _ sf => ob_commit dec magic nfiles oldt oldp is_overlay sf = ob_commit dec magic nfiles oldt oldp is_overlay Sf
+    | Stopped _ _ _ _ => exists j : nat, stop j = true
+    | _ => False
+    end.
+Proof. exact resume_equiv_instantiated_lemma. Qed.
+Print Assumptions resume_equiv_instantiated.
+
+(** Where [H_wire] as literally stated asks for more than C13 gives (computed on the instance
+    of the example below): a reader index beyond the last message is not a position of the
+    stream ([Resume] lands at the end, 6, not at 7); and for a sound source that describes the
+    END of the message during whose read it answers, resuming with reader offset = the START of
+    that message fails (delta < 0) while any later reader offset works. *)
+Theorem h_wire_literal_exceeds_c13 :
+  src_resume_w xi_marshal ex_msgs seek_beh 0 7 2 = Some 6 /\
+  beh_sound late_beh /\
+  src_resume_w xi_marshal ex_msgs late_beh 0 3 3 = None /\
+  src_resume_w xi_marshal ex_msgs late_beh 0 3 2 = Some 3.
+Proof. exact (conj h_wire_beyond_end (conj late_beh_sound h_wire_src_eq_off)). Qed.
+Print Assumptions h_wire_literal_exceeds_c13.
+
+(** Non-vacuity of [resume_equiv_instantiated]: the patch of [resume_nonvacuous] applied in
+    place (overlay window 4, threshold 1, C14's real message encoding, seek source): every
+    hypothesis holds, Commit yields the new file, the run that always saves offers a checkpoint
+    after 3 messages (6 bytes written, ReadOffset 6, OverlayOffset 21), a crash disk keeping
+    the 21 covered bytes followed by junk and a stale end marker is within the crash model and
+    differs from the disk of checkpoint time, and the resumed run commits to the new file. *)
+Example resume_instantiated_nonvacuous :
+  exists Sf,
+    xi_run (fun _ => false) (fun _ => false) xi_start ex_msgs = Finished _ _ _ Sf /\
+    ob_sized 4 1 enc dec magic 4 ex_tsize ex_ssize 1 ex_old ex_old ex_range ex_bs xi_sel xi_emit xi_start ex_msgs /\
+    (forall g, ob_raw_ok ex_ssize xi_sel g (ex_d0 g)) /\
+    xi_commit Sf = Some [Some ex_new] /\
+    ob_offered 4 1 enc dec magic 4 ex_tsize ex_ssize 1 ex_old ex_old ex_range ex_bs xi_sel xi_emit xi_resume
+               ex_msgs ex_d0 (fst xi_offer) (snd xi_offer) /\
+    ck_msg _ (fst xi_offer) = mkmc 3 2 /\ ck_woff _ (fst xi_offer) = 6%N /\ ck_wdata _ (fst xi_offer) = inr (6%N, 21%N) /\
+    ob_crash ex_ssize xi_sel (fst xi_offer) (snd xi_offer) xi_crash /\
+    snd xi_offer 0%N <> xi_crash 0%N /\
+    exists sf, xi_resumed (fun _ => false) (fun _ => false) (fst xi_offer) xi_crash ex_msgs = Finished _ _ _ sf /\
+               xi_commit sf = Some [Some ex_new].
+Proof. exact resume_instantiated_example_lemma. Qed.
+Print Assumptions resume_instantiated_nonvacuous.
